@@ -400,11 +400,39 @@ class Inliner:
                         x["rcallee"] = cands[0]
                         x["re_resolved"] = True
 
+    def eta(self, a, unit):
+        """a helper fn ITEM passed by name (`.map(fmt_entry)`) is the closure `|x| fmt_entry(x)`; the call inside it is
+        then expanded like any other helper call"""
+        from .facts import norm_path
+        if not isinstance(a, dict) or a.get("k") != "def" or a.get("dk") != "Fn":
+            return None
+        p = norm_path(a.get("path", ""))
+        h = self.helpers.get((unit, p))
+        if h is None:
+            hs = [f for (u, q), f in self.helpers.items() if q == p]
+            h = hs[0] if hs else None
+        if h is None or not isinstance(h.get("param_tys"), list) or h.get("generics"):
+            return None
+        ps, args = [], []
+        for i, ty in enumerate(h["param_tys"]):
+            self.eta_counter = getattr(self, "eta_counter", 0) + 1
+            lid = 800000000 + self.eta_counter
+            ps.append({"k": "pbind", "name": "eta%d" % i, "id": lid, "mode": "BindingMode(No, Not)", "ty": ty, "sp": a.get("sp")})
+            args.append({"k": "local", "ty": ty, "sp": a.get("sp"), "name": "eta%d" % i, "id": lid})
+        call = {"k": "call", "ty": h.get("ret"), "sp": a.get("sp"), "callee": a.get("path"), "cdk": "Fn", "f": a, "args": args}
+        return {"k": "closure", "ty": "{closure@eta}", "sp": a.get("sp"), "params": ps, "move": False,
+                "def": a.get("path", "") + "::{eta}", "body": call, "from_fn_item": True}
+
     def rewrite(self, n, unit, stack, caller):
         if isinstance(n, list):
             return [self.rewrite(x, unit, stack, caller) for x in n]
         if not isinstance(n, dict):
             return n
+        if n.get("k") in ("call", "mcall") and isinstance(n.get("args"), list):
+            for i, a in enumerate(n["args"]):
+                c = self.eta(a, unit)
+                if c is not None:
+                    n["args"][i] = c
         for key, v in list(n.items()):
             if isinstance(v, (dict, list)):
                 n[key] = self.rewrite(v, unit, stack, caller)
